@@ -1,4 +1,53 @@
-// harnesses for this file are added below
+// Kani harness for lightning-invoice/src/lib.rs: the amount field (msat -> raw amount + SI prefix -> pico-BTC)
 use super::*;
 include!("/verif/hooks/common.rs");
-pub fn replay(_name: &str, _a: &[u128]) -> Option<Outcome> { None }
+
+// (P C18) amount round trip: InvoiceBuilder::amount_milli_satoshis(a) then RawBolt11Invoice::amount_pico_btc()
+// gives back a * 10 pico-BTC, using the largest SI prefix that divides; amounts whose pico value overflows are refused
+pub fn contract_amount_roundtrip(a: u64) -> Outcome {
+	let b = InvoiceBuilder::new(Currency::Bitcoin).amount_milli_satoshis(a);
+	if a > u64::MAX / 10 {
+		return if b.error == Some(CreationError::InvalidAmount) { Outcome::Holds } else { Outcome::Violated };
+	}
+	if b.error.is_some() {
+		return Outcome::Violated;
+	}
+	let (amt, si) = match (b.amount, b.si_prefix) {
+		(Some(x), Some(s)) => (x, s),
+		_ => return Outcome::Violated,
+	};
+	let pico = a * 10;
+	// largest prefix that divides
+	let largest_ok = match si {
+		SiPrefix::Milli => true,
+		SiPrefix::Micro => pico % 1_000_000_000 != 0,
+		SiPrefix::Nano => pico % 1_000_000 != 0,
+		SiPrefix::Pico => pico % 1_000 != 0,
+	};
+	let raw = RawBolt11Invoice {
+		hrp: RawHrp { currency: Currency::Bitcoin, raw_amount: Some(amt), si_prefix: Some(si) },
+		data: RawDataPart { timestamp: PositiveTimestamp(core::time::Duration::from_secs(0)), tagged_fields: Vec::new() },
+	};
+	if largest_ok && raw.amount_pico_btc() == Some(pico) {
+		Outcome::Holds
+	} else {
+		Outcome::Violated
+	}
+}
+pub fn replay(name: &str, a: &[u128]) -> Option<Outcome> {
+	Some(match name {
+		"amount_roundtrip" => contract_amount_roundtrip(a[0] as u64),
+		_ => return None,
+	})
+}
+#[cfg(kani)]
+mod harnesses {
+	use super::*;
+	#[kani::proof]
+	#[kani::unwind(6)]
+	fn h_amount_roundtrip() {
+		let o = contract_amount_roundtrip(kani::any());
+		kani::cover!(o == Outcome::Holds);
+		assert!(o != Outcome::Violated);
+	}
+}
